@@ -524,12 +524,16 @@ let monitor_pair prop case obs =
        let unique_out = List.for_all (fun t -> producers t = 1) (down_outs moved) in
        (* nject's own Unused provider is one more source of Unused *)
        let single_src = List.for_all (fun t -> producers t = 1 && t <> te.te_unusedT) (ins moved) in
-       let cacheable = List.exists (fun d -> d.d_cacheable) c.bc_provs in
+       (* the displaced injector may itself be Cacheable (static in the base, per invocation once it is
+          Reorder'd: "functions marked Reorder are ineligible for the static set"); then whatever must
+          be static (MustCache, Singleton) downstream of it may legitimately stop binding *)
+       let moved_static = moved.d_cacheable in
+       let must_static = List.exists (fun d -> d.d_mustCache || d.d_singleton) c.bc_provs in
        if not (ok sa) then "PASS" else
        let all_inc = List.for_all (fun t -> match String.split_on_char ':' t with
            | [p; _; _; inc] -> int_of_string p >= 90 || inc = "1" | _ -> true) (sec "ORDER" sa) in
        if not (all_inc && unique_out && single_src) then "PASS (outside the scope of the statement)" else
-       if cacheable && prop = "C17" then "PASS (D16 region: a static-eligible provider is present)" else
+       if moved_static && must_static then "PASS (outside the scope: a provider that must be static may depend on the displaced one)" else
        let strip tok =    (* drop serials: t.p.s -> t.p *)
          let b = Buffer.create 32 in
          let parts = String.split_on_char '.' tok in
@@ -552,7 +556,11 @@ let monitor_pair prop case obs =
            end else begin Buffer.add_char b ch; incr i end
          done;
          Buffer.contents b in
-       let proj secs = List.sort compare (List.map strip (sec "LOG" secs)) @ List.map strip (sec "RES" secs) in
+       (* a Cacheable injector that was static runs per invocation once Reorder'd, and so do its static
+          consumers: compare which calls occur (with which producers), not how often *)
+       let proj secs =
+         let l = List.sort compare (List.map strip (sec "LOG" secs)) in
+         (if moved_static then List.sort_uniq compare l else l) @ List.map strip (sec "RES" secs) in
        if not (ok sb) then "FAIL the chain no longer binds with the injector marked Reorder and listed elsewhere"
        else if user_included sa <> user_included sb then "FAIL displacing the Reorder'd injector changes which providers are included"
        else if proj sa <> proj sb then "FAIL after displacing the Reorder'd injector some value comes from a different producer: " ^ first_diff (proj sb) (proj sa)
